@@ -65,6 +65,14 @@ pub mod fnv1a64 {
         hash_sdm_type(state, schema).to_le_bytes()
     }
 
+    /// Verification hook (only with `--cfg postcard_verif`): run the const hasher on a
+    /// `&'static` schema supplied at run time.
+    #[cfg(postcard_verif)]
+    pub fn verif_hash_static(path: &str, schema: &'static DataModelType) -> [u8; 8] {
+        let state = hash_update_str(Fnv1a64Hasher::BASIS, path);
+        hash_sdm_type(state, schema).to_le_bytes()
+    }
+
     pub(crate) const fn hash_update(mut state: u64, bytes: &[u8]) -> u64 {
         let mut idx = 0;
         while idx < bytes.len() {
